@@ -172,7 +172,25 @@ def check_exclusion(idx: Index, rep: Report) -> None:
             parts = set(re.split(r"\s*\|\s*", it))
             srcs = {defs.get(p, p) for p in parts}
             ok = {"RegisterAllocatableOperation.all_used_registers(func.body)", "RegisterAllocatableOperation.all_excluded_registers(func.body)"} <= srcs and cfg.path_avoiding(cfg.entry, cfg.node_of(alloc[0]), lambda n: n.id == cfg.node_of(loops[0]), follow_exc=False) is None
+        skip = None
         if ok:
+            w = loops[0]
+            head = cfg.node_of(w)
+            exn = {cfg.node_of(c) for c in calls_in(w) if unparse(c.func) == "self.available_registers.exclude_register" and c.args and unparse(c.args[0]) == unparse(w.target)}
+            for m, lab in cfg.succ[head]:
+                if lab != "T" or m in exn:
+                    continue
+                pth = cfg.path_avoiding(m, head, lambda n: n.id in exn, follow_exc=False)
+                if pth is not None:
+                    tests_ = [cfg.nodes[x].text() for x in [m] + pth if cfg.nodes[x].kind == "test"]
+                    if tests_ and all(re.search(r"is_allocated|isinstance\(\w+\.index, IntAttr\)", t_) for t_ in tests_):
+                        continue  # an unallocated register type has no index to exclude
+                    skip = pth
+            if not exn:
+                skip = []
+        if ok and skip is not None:
+            r.fail(f.fq, Finding("C19.R3", f.fq, "exclusion-conditional", "an iteration over the pre-allocated / excluded registers skips exclude_register: " + " -> ".join(cfg.describe(skip)[-3:]) + " - the pool is keyed by register index, not by register type, so a filter on the register object (e.g. membership in the list of 64-bit default registers) leaves the narrower views of argument registers in the pool and they are handed to other values while the argument is live", f.loc))
+        elif ok:
             r.ok(f.fq, f"{f.loc} used ∪ excluded registers removed from the pool before allocate_block")
         else:
             r.fail(f.fq, Finding("C19.R3", f.fq, "no-exclusion", "allocate_block can run without the pre-allocated and excluded registers having been removed from the pool: a pre-assigned register is handed to another live value", f.loc))
